@@ -4,7 +4,7 @@
     [esub t s] = the bindings of t, expanded, are bindings of the notation-free map s.  Partial-correctness
     form over the fuel (termination: Py/Termination.v). *)
 From Coq Require Import NArith List Bool.
-From Pi2 Require Import ML.Syntax Py.Pattern Py.PatFacts Py.ExpandFacts Py.MatchFacts Py.Witness.
+From Pi2 Require Import ML.Syntax Py.Pattern Py.PatFacts Py.ExpandFacts Py.MatchFacts Py.Termination Py.Total Py.Witness.
 Import ListNotations.
 Open Scope N_scope.
 
@@ -64,6 +64,28 @@ Theorem C13_notation_roundtrip : forall f, f_mv_keep_subst f = true -> f_inst_ex
     expand f (PInst (nt_def nt) (enumerate_from 0 args')) = expand f (PInst (nt_def nt) (enumerate_from 0 args)).
 Proof. exact notation_roundtrip. Qed.
 Print Assumptions C13_notation_roundtrip.
+
+(** total correctness: with fuel beyond the structural measure [dm] matching always answers, the answer is
+    sound, and it is not None on an instance of a substitution-free pattern *)
+Theorem C13_match_single_total : forall f, f_mv_keep_subst f = true -> f_inst_extend f = true ->
+  forall p i n, (dm p one + dm i one + dm i one <= n)%nat ->
+  exists res, match_single f n p i [] = Some res /\
+    (forall th, res = Some th ->
+       forall th', sub th th' -> p_inst f (expand f p) (expand_delta f th') = expand f i) /\
+    (f_match_simplify f = true -> nosub (expand f p) = true ->
+     forall s, p_inst f (expand f p) s = expand f i ->
+       (forall k, In k (p_metavars (expand f p)) -> alookup k s <> None) -> res <> None).
+Proof. exact match_single_total. Qed.
+Theorem C13_match_list_terminates : forall f, f_inst_extend f = true ->
+  forall n eqs ret W,
+  (forall e, In e eqs -> (dm (fst e) one + dm (snd e) one + W <= n)%nat /\ (dm (snd e) one <= W)%nat) ->
+  (forall kv, In kv ret -> (dm (snd kv) one <= W)%nat) ->
+  exists res, match_list f n eqs ret = Some res.
+Proof. exact match_list_terminates. Qed.
+Theorem C13_assert_matches_terminates : forall f, f_inst_extend f = true ->
+  forall n nt p, (dm (nt_def nt) one + dm p one + dm p one <= n)%nat -> exists res, nassert f n nt p = Some res.
+Proof. exact nassert_terminates. Qed.
+Print Assumptions C13_match_single_total.
 
 (** ---- non-vacuity ---- *)
 Example C13_ex_match :
